@@ -21,10 +21,21 @@ pub enum Ent {
 }
 
 pub fn build(root: &str, ents: &[Ent]) {
+    // directory entries are created in the order of `ents` (creation order decides the listing order on tmpfs); the two
+    // names of a hard-linked file are symmetric, so whichever comes first is written and the other one linked to it
+    let mut first_name_of: std::collections::HashMap<String, String> = std::collections::HashMap::new();
     for e in ents {
         match e {
             Ent::File { name, bytes } => {
-                std::fs::write(format!("{}/{}", root, name), bytes).expect("write tree file");
+                let p = format!("{}/{}", root, name);
+                match first_name_of.get(name) {
+                    Some(other) => {
+                        if std::fs::hard_link(format!("{}/{}", root, other), &p).is_err() {
+                            std::fs::write(&p, bytes).expect("write tree file");
+                        }
+                    }
+                    None => std::fs::write(&p, bytes).expect("write tree file"),
+                }
             }
             Ent::Dir { name, kids } => {
                 let d = format!("{}/{}", root, name);
@@ -34,15 +45,17 @@ pub fn build(root: &str, ents: &[Ent]) {
             Ent::Link { name, target } => {
                 let _ = std::os::unix::fs::symlink(target, format!("{}/{}", root, name));
             }
-            Ent::Hard { .. } => {}
-        }
-    }
-    // second names last: their files exist by now (creation order of the directory entry is still the hard link's own)
-    for e in ents {
-        if let Ent::Hard { name, of } = e {
-            if std::fs::hard_link(format!("{}/{}", root, of), format!("{}/{}", root, name)).is_err() {
-                // no hard links on this file system: an ordinary copy keeps the tree's meaning
-                let _ = std::fs::copy(format!("{}/{}", root, of), format!("{}/{}", root, name));
+            Ent::Hard { name, of } => {
+                let (p, o) = (format!("{}/{}", root, name), format!("{}/{}", root, of));
+                if std::path::Path::new(&o).exists() {
+                    if std::fs::hard_link(&o, &p).is_err() {
+                        // no hard links on this file system: an ordinary copy keeps the tree's meaning
+                        let _ = std::fs::copy(&o, &p);
+                    }
+                } else if let Some(Ent::File { bytes, .. }) = ents.iter().find(|x| matches!(x, Ent::File { name: n, .. } if n == of)) {
+                    std::fs::write(&p, bytes).expect("write tree file");
+                    first_name_of.insert(of.clone(), name.clone());
+                }
             }
         }
     }
@@ -143,19 +156,19 @@ pub fn observed_findings_inprocess(root: &str, pats: &[Det]) -> Result<Vec<Findi
     let mo = guarded(std::panic::AssertUnwindSafe(|| o::analyze_dir(&r, os)))?;
     for (k, es) in mo {
         for (f, ls) in es {
-            out.push((Det::Opt(k).name().to_string(), f, ls.into_iter().collect()));
+            out.push((Det::Opt(k).name().to_string(), f, ls.into_iter().map(|l| l as i32).collect()));
         }
     }
     let mv = guarded(std::panic::AssertUnwindSafe(|| v::analyze_dir(&r, vs)))?;
     for (k, es) in mv {
         for (f, ls) in es {
-            out.push((Det::Vuln(k).name().to_string(), f, ls.into_iter().collect()));
+            out.push((Det::Vuln(k).name().to_string(), f, ls.into_iter().map(|l| l as i32).collect()));
         }
     }
     let mq = guarded(std::panic::AssertUnwindSafe(|| q::analyze_dir(&r, qs)))?;
     for (k, es) in mq {
         for (f, ls) in es {
-            out.push((Det::Qa(k).name().to_string(), f, ls.into_iter().collect()));
+            out.push((Det::Qa(k).name().to_string(), f, ls.into_iter().map(|l| l as i32).collect()));
         }
     }
     Ok(out)
@@ -383,7 +396,7 @@ fn gen_tree_eligible_in(rng: &Rng, pool: &Pool, depth: usize, max_files: usize, 
     if rng.chance(1, 16) {
         let n = format!("Large{}.sol", rng.below(20));
         if used.insert(n.clone()) {
-            let lines = if rng.chance(1, 6) { 30000 } else { 1900 };
+            let lines = if rng.chance(1, 6) { 40000 } else { 1900 }; // about 1.3 MiB or 64 KiB of comment lines
             let nl = if rng.chance(1, 3) { "\r\n" } else { "\n" };
             let mut t = String::new();
             for i in 0..lines {
@@ -557,6 +570,23 @@ pub fn c13_binary_part(ctx: &Ctx, acc: &mut Acc) {
                                 reports.push(("cwd-holds-equal-length-report-of-other-findings".to_string(), rep));
                             }
                         }
+                    }
+                }
+            }
+        }
+        // a working directory that holds exactly the expected report, but with CRLF line ends: the run still writes its own bytes
+        if reports.len() >= 2 {
+            let root = format!("{}/crlf", base);
+            std::fs::create_dir_all(format!("{}/contracts", root)).unwrap();
+            build(&format!("{}/contracts", root), &ents);
+            let crlf = String::from_utf8_lossy(&reports[0].1).replace('\n', "\r\n");
+            std::fs::write(format!("{}/solstat_report.md", root), crlf).unwrap();
+            if let Ok(o) = run_solstat(&root, &[]) {
+                if o.code == Some(0) {
+                    acc.eval();
+                    acc.cov("binary-run:cwd-holds-the-expected-report-with-crlf");
+                    if let Some(rep) = o.report {
+                        reports.push(("cwd-holds-equal-length-report-of-other-findings".to_string(), rep));
                     }
                 }
             }
